@@ -10,7 +10,7 @@ func init() {
 	register(&propDef{
 		id: "C10", title: "Each watcher receives exactly one Terminated for a watched actor",
 		technique: "who-may-construct/who-may-call, per-iteration CFG rule on the notification loop, symmetric-update rule on the watch relation, lockset",
-		explanation: "Decides: (1) Terminated messages are constructed only in freeWatchers (local and remote watcher loops) and by the wire deserializer; freeWatchers is called from exactly one site, inside doStop, after PostStop, and doStop runs at most once per incarnation (runningState test under stopLocker, C06); (2) in the local loop every iteration tells Terminated to the watcher at most once, only when the watcher is running, and un-watches it right after, so a second pass would not find it; the loop ranges over the snapshot returned by tree.watchers; the remote loop sends one RemoteTell per remote watcher address; (3) tree.watchers returns a freshly allocated snapshot built under the read lock; addWatcher/removeWatcher update both directions of the watch relation (watchers of the watchee, watchees of the watcher) in one critical section. Added after seed C10a: for a local watchee UnWatch always removes the watch relation, independent of the watchee's state.",
+		explanation: "Decides: (1) Terminated messages are constructed only in freeWatchers (local and remote watcher loops) and by the wire deserializer; freeWatchers is called from exactly one site, inside doStop, after PostStop, and doStop runs at most once per incarnation (runningState test under stopLocker, C06); (2) in the local loop every iteration tells Terminated to the watcher at most once, only when the watcher is running, and un-watches it right after, so a second pass would not find it; the loop ranges over the snapshot returned by tree.watchers; the remote loop sends one RemoteTell per remote watcher address; (3) tree.watchers returns a freshly allocated snapshot built under the read lock; addWatcher/removeWatcher update both directions of the watch relation (watchers of the watchee, watchees of the watcher) in one critical section. Added after seed C10a: for a local watchee UnWatch always removes the watch relation, independent of the watchee's state. Added after seed C10b (dual of tell-only-if-running): an iteration of the local loop ends without a Tell only over the edge on which the watcher was found not running — no other skip.",
 		assumptions: []string{"Watch/UnWatch racing the snapshot taken by freeWatchers", "delivery of the Terminated message itself (mailbox properties C02/C04)"},
 		minObl:     23,
 		run:        runC10,
@@ -128,6 +128,19 @@ func runC10(c *Ctx) {
 		}, true)
 		wr = lf.search(searchSpec{avoidEdges: running, target: tell})
 		c.Check(wr == nil && len(running) > 0, "tell-only-if-running", "only a running watcher is notified", c.P.Pos(rng.Pos()), lf.describe(wr))
+		// the dual: every watcher of the snapshot that is running IS told — an iteration ends without a Tell only
+		// over the edge on which the watcher was found not running (no other skip, e.g. a re-check of the registry
+		// that a concurrent deleteNode by the death watch empties)
+		notRunning := lf.CondEdges(func(e ast.Expr) bool {
+			call, ok := e.(*ast.CallExpr)
+			if !ok {
+				return false
+			}
+			cal := callee(info, call)
+			return cal != nil && cal.Name() == "IsRunning" && objOf(info, recvExpr(call)) == w
+		}, false)
+		wr = lf.search(searchSpec{avoid: tell, avoidEdges: notRunning, exits: true})
+		c.Check(wr == nil && len(notRunning) > 0, "running-watcher-always-told", "every running watcher in the snapshot is told: an iteration skips the Tell only when the watcher is not running", c.P.Pos(rng.Pos()), lf.describe(wr))
 		wr = lf.MustFollow(tells, unwatch, nil)
 		c.Check(wr == nil, "tell⇒◇unwatch", "after notifying a watcher the watch is removed (the watcher cannot be notified again for this actor)", c.P.Pos(rng.Pos()), lf.describe(wr))
 		wr = lf.MustPrecede(tell, nil, unwatch)
